@@ -47,7 +47,8 @@ structure Cli where
   prog : Option Prog
   deriving Repr, Inhabited
 
-def hexData (s : String) : Option Data := (Hex.decode s).map String.toList
+def hexData (s : String) : Option Data :=
+  if s == "-" then some [] else (Hex.decode s).map String.toList
 
 def natOf : Sexp → Option Nat
   | .atom s => s.toNat?
@@ -208,7 +209,20 @@ def candidates (clients : Array Cli) (obs : Array Obs) (n : Node) :
         let rem := if remaining.isEmpty then p.loop else remaining
         match rem with
         | [] => []
-        | a :: rest => [(.wAct i a, setProg n.progs i rest, n.ci)]
+        | a :: rest =>
+          -- a print must keep the buffer a prefix of the next chunk still to be observed
+          let ok : Bool := match a with
+            | .print k d =>
+              let inflight : Bool := match k, ss.fpc with
+                | .out, .tookOut _ _ => true
+                | .err, .tookErr _ _ => true
+                | _, _ => false
+              let buf := (if k == .out then ss.outBuf else ss.errBuf) ++ d
+              match nextChunk obs n.si k r (if inflight then 1 else 0) with
+              | some e => buf.isPrefixOf e
+              | none => false
+            | _ => true
+          if ok then [(.wAct i a, setProg n.progs i rest, n.ci)] else []
       | .flagSeen _ => [(.wClear i, n.progs, n.ci)]
       | .evalDone _ _ => [(.wStop i, n.progs, n.ci)]
       | .stopRequested _ _ => [(.wJoin i, n.progs, n.ci)]
@@ -300,7 +314,7 @@ def handle (op : String) (rest : String) : Option String :=
   match Sexp.parseAll rest with
   | some [.list [.atom "trace", .list (.atom "client" :: cs), .list (.atom "server" :: ms)]] =>
     match cs.mapM cliOf, ms.mapM obsOf with
-    | some cs, some ms => some (accept cs.toArray ms.toArray 400000)
+    | some cs, some ms => some (accept cs.toArray ms.toArray 30000)
     | none, _ => some "ERR client"
     | _, none => some "ERR server"
   | _ => some "ERR parse"
